@@ -32,7 +32,10 @@ def gen_cases(run):
             dist["calls_by_code"][c[0]] = dist["calls_by_code"].get(c[0], 0) + 1
         dist["models"] += 1; dist["calls"] += L
         if err: dist["histories_with_errors"] += 1
-        cases.append(mk_case(tree, calls, {}))
+        # a top-level collection is held in any of the four ORDERED containers (slice, Vec, wrapped VecDeque, BTreeMap)
+        meta = {"cont": rng.choice([0, 1, 2, 2, 3])} if kind == 1 else {}
+        if kind == 1: dist.setdefault("containers", {}); dist["containers"][meta["cont"]] = dist["containers"].get(meta["cont"], 0) + 1
+        cases.append(mk_case(tree, calls, meta))
     return cases, dist
 
 
